@@ -239,7 +239,7 @@ def damage_encdoc(rng, encdoc):
 # ------------------------------------------------------------------------------------------
 def plan(tier):
     if tier == 'quick':
-        return [('v1', 8), ('v2', 14), ('v2bad', 4), ('v4', 22), ('v4odd', 4), ('r5', 8), ('v5', 3), ('v5odd', 1)]
+        return [('v1', 8), ('v2', 14), ('v2bad', 4), ('v4', 22), ('v4odd', 4), ('r5', 8), ('v5', 2)]
     return [('v1', 120), ('v2', 300), ('v2bad', 40), ('v4', 500), ('v4odd', 60), ('r5', 160), ('v5', 40), ('v5odd', 10)]
 
 
@@ -257,7 +257,8 @@ def gen_cases(rng, tier):
             ivs = [rbytes(rng, 16) for _ in range(80)]
             enc_line = L('enc', doc, ver, L('rnd', *[xb(b) for b in rnd]), L('ivs', *[xb(b) for b in ivs]))
             specs.append({'kind': kind, 'doc': doc, 'ver': ver, 'enc': enc_line, 'owner': owner, 'user': user,
-                          'wrongs': wrongs, 'feats': feats, 'alldiff': alldiff, 'by_model': rng.random() < 0.3})
+                          'wrongs': wrongs, 'feats': feats, 'alldiff': alldiff,
+                          'by_model': rng.random() < 0.3 and not (tier == 'quick' and kind.startswith('v5'))})
     impl_enc = [vlib.split_impl(l)[0] for l in vlib.run_lines(impl, [s['enc'] for s in specs], timeout=900, shards=8)] if impl else []
     by_model = [i for i, s in enumerate(specs) if s['by_model']]
     model_enc = dict(zip(by_model, vlib.run_lines(runner, [specs[i]['enc'] for i in by_model], timeout=900, shards=16))) if runner else {}
@@ -275,15 +276,23 @@ def gen_cases(rng, tier):
             src = 'model'
         pws = [s['user'], s['owner']] + s['wrongs']
         supported = s['kind'] in ('v1', 'v2', 'v4', 'r5', 'v5')
-        flag = 'noverdict'
+        flags = ['noverdict']
         if supported:
-            flag = 'alldiff' if (s['alldiff'] and not (s['feats'] & {'metadata', 'xref', 'crypt'})) else 'plain'
-        cases.append((L('case', s['doc'], s['ver'], encdoc, L('pws', *[xb(p) for p in pws]), flag),
-                      {'kind': '%s-%s' % (s['kind'], src), 'nontrivial': True}))
+            flags = ['alldiff'] if (s['alldiff'] and not (s['feats'] & {'metadata', 'xref', 'crypt'})) else []
+        if s['kind'] in ('v5', 'v5odd'):
+            # Algorithm 2.B costs seconds per hash in the extracted model: one line per piece of work
+            parts = [([], flags + ['noverdict'] if 'noverdict' not in flags else flags)] + \
+                    [([p], (flags if k == 0 else ['noverdict']) + ['noreenc']) for k, p in enumerate(pws[:3])]
+        else:
+            parts = [(pws, flags)]
+        for ps, fl in parts:
+            cases.append((L('case', s['doc'], s['ver'], encdoc, L('pws', *[xb(p) for p in ps]), L('flags', *fl)),
+                          {'kind': '%s-%s' % (s['kind'], src), 'nontrivial': True}))
         if rng.random() < 0.35:
             dmg, what = damage_encdoc(rng, encdoc)
             if dmg:
-                cases.append((L('case', s['doc'], s['ver'], dmg, L('pws', *[xb(p) for p in pws[:3]]), 'noverdict'),
+                cases.append((L('case', s['doc'], s['ver'], dmg, L('pws', *[xb(p) for p in pws[:(1 if s['kind'].startswith('v5') else 3)]]),
+                                L('flags', 'noverdict', 'noreenc')),
                               {'kind': 'damaged-' + what.split('-')[0], 'nontrivial': True}))
     return cases
 
@@ -315,3 +324,21 @@ SPEC = {
 
 def run(ctx):
     return propcheck.standard_check(ctx, SPEC)
+
+
+MANIFEST = {
+    'level_text': 'Machine-checked proofs (Coq) on an executable model of lopdf\'s standard security handler written from the Rust '
+                  'source (RC4, PKCS#5, the four crypt filters, encrypt_object/decrypt_object, key derivation and authentication for '
+                  'R2-R6, Document::encrypt/decrypt): RC4 is an involution for every accepted key, PKCS#5 unpad inverts pad, CBC '
+                  'decryption inverts CBC encryption for any block cipher with D(E b) = b, every crypt filter decrypts what it '
+                  'encrypted, AES ciphertexts never equal their plaintext; the model is tied to the implementation by differential '
+                  'runs in both directions (lopdf-encrypt / model-decrypt, model-encrypt / lopdf-decrypt, byte-exact re-encryption '
+                  'with the random choices read back from the ciphertext) and the property is evaluated directly on the crate '
+                  '(user and owner password, in memory and after save/load, wrong passwords rejected without change).',
+    'level_note': 'Trusted: Coq kernel; translator part Crypto (padding string, permission masks, salt, iteration counts); Gallina '
+                  'MD5/SHA-2/AES stand in for the md-5/sha2/aes crates (standard test vectors + differential runs); password '
+                  'preparation (PDFDocEncoding/SASLprep) is outside the model; cryptographic clauses (wrong password rejected, RC4 '
+                  'ciphertext differs) are conditional/sampled. No axioms.',
+    'technique': 'Coq proofs over an executable model + two-way differential correspondence + direct property evaluation',
+    'design_ref': 'DESIGN.md 6 C05',
+}
